@@ -277,6 +277,10 @@ def families(thorough):
     for role, dflt in (('primary', 'replica'), ('replica', 'primary')):
         for t in (["q:SET SERVER ROLE TO '%s'" % role, 'select', 'select2', 'begin', 'select', 'commit'], ["q:SET SERVER ROLE TO '%s'" % role, 'P', 'B', 'E', 'S', 'select']):
             s.append(Case(t, stop='X', shards=[(0, 1)], custom=True, pool_parser=dflt))
+    # ... and a RELOAD that re-creates the pool between two transactions of the session
+    for role, dflt in (('primary', 'replica'), ('replica', 'primary')):
+        s.append(Case(["q:SET SERVER ROLE TO '%s'" % role, 'select', 'select2', 'select'], stop='X', shards=[(0, 1)], custom=True, pool_parser=dflt, reload_before=2))
+    s.append(Case(["q:SET SHARD TO '1'", 'select', 'select2'], stop='X', shards=two_shards, custom=True, reload_before=2))
     for t in (["q:SET PRIMARY READS TO 'on'", 'q:SHOW PRIMARY READS', 'select'], ["q:SET PRIMARY READS TO 'off';", 'select']):
         s.append(Case(t, stop='X', shards=[(0, 1)], custom=True))
     # routing by comment (shard_id_regex / sharding_key_regex of the example configuration), in a simple Query and in a Parse, with the
